@@ -85,7 +85,7 @@ theorem graphTail_len (f : Nat) (toks : List Tok) (acc ns : List GNode) (rest : 
     all_goals grind
 
 theorem graphLeaf_len {r rest : List Tok} {t : PExp} (h : graphLeaf r = some (t, rest)) : rest.length < r.length := by
-  simp only [graphLeaf] at h
+  simp only [graphLeaf, graphNodes] at h
   have := skipNl_len
   have := graphTail_len
   have := @graphNode_len
